@@ -107,7 +107,14 @@ const (
 
 var kindCoq = []string{"KIndex", "KCreate", "KUpdate", "KDelete", "KUnknown", "KBadJson"}
 
-var indexNames = map[int]string{1: "c15a", 2: "c15b", 3: "c15c", 4: "c15d", 9: strings.Repeat("x", 300)}
+var indexNames = map[int]string{1: "c15a", 2: "c15b", 3: "c15c", 4: "c15d", 9: strings.Repeat("x", 300),
+	// names utils.IsSafePathComponent rejects (numbers >= 20), as they read after JSON unescaping
+	20: "<no _index>", 21: "", 22: ".", 23: "..", 24: "a/b", 25: "../x", 26: `a\b`}
+
+// the JSON text of the unsafe names inside the quotes of "_index"
+var unsafeJSON = map[int]string{21: "", 22: ".", 23: "..", 24: "a/b", 25: `..\/x`, 26: `a\\b`}
+
+func unsafeIdx(ix int) bool { return ix >= 20 }
 
 // one body line as the generator made it (shape + how the bulk grammar reads it)
 type lineSpec struct {
@@ -123,6 +130,12 @@ func (l lineSpec) render(tag string, n int) string {
 	id := fmt.Sprintf("%sd%d", tag, n)
 	common := fmt.Sprintf(`"id":"%s","g":"%s","timestamp":%d`, id, tag, 1700000000000+int64(n))
 	verb := func(v string) string {
+		if l.Idx == 20 {
+			return fmt.Sprintf(`{"%s":{},%s}`, v, common)
+		}
+		if unsafeIdx(l.Idx) {
+			return fmt.Sprintf(`{"%s":{"_index":"%s"},%s}`, v, unsafeJSON[l.Idx], common)
+		}
 		return fmt.Sprintf(`{"%s":{"_index":"%s"},%s}`, v, indexNames[l.Idx], common)
 	}
 	switch l.Shape {
@@ -219,8 +232,9 @@ func grammar(lines []lineSpec, lens []int, finalNL bool) []action {
 				a.DLine, a.HasDoc = i+1, true
 				if a.Kind == "write" {
 					d := lines[i+1]
-					a.Over = lens[i+1] >= maxRec
-					a.OK = lens[i+1] > 0 && lens[i+1] < maxRec && d.Parses
+					// an unusable index name is a plain failure (400) of this action, whatever its document is
+					a.Over = !unsafeIdx(l.Idx) && lens[i+1] >= maxRec
+					a.OK = !unsafeIdx(l.Idx) && lens[i+1] > 0 && lens[i+1] < maxRec && d.Parses
 				}
 			}
 			out = append(out, a)
@@ -352,6 +366,9 @@ func evaluate(c bodyCase) (obs observation, fails []failure, texts []string, len
 	sort.Ints(idxs)
 	total := 0
 	for _, ix := range idxs {
+		if unsafeIdx(ix) { // no such index can exist; anything stored anywhere shows in the search over "*"
+			continue
+		}
 		ids, err := search(indexNames[ix], tag)
 		if err != nil {
 			if ix == 9 { // the index that cannot exist
@@ -641,6 +658,48 @@ func genStoreFail(r *vhlib.Rng) bodyCase {
 	return c
 }
 
+// index/create actions with an index name that IsSafePathComponent rejects (~20 % of the
+// writes, at least one per body), followed by their document line — which may itself look
+// like an action line — and by further actions
+func unsafeVerb(r *vhlib.Rng) lineSpec {
+	v := "index"
+	if r.Chance(30) {
+		v = "create"
+	}
+	return mk(v, 20+r.Intn(7))
+}
+func genUnsafe(r *vhlib.Rng) bodyCase {
+	nIdx := r.Range(1, 3)
+	c := bodyCase{Stream: "unsafe_index", FinalNL: r.Chance(75)}
+	n := r.Range(2, 7)
+	forced := r.Intn(n)
+	for i := 0; i < n; i++ {
+		if i != forced && !r.Chance(20) {
+			c.Lines = append(c.Lines, someAction(r, nIdx, true)...)
+			continue
+		}
+		c.Lines = append(c.Lines, unsafeVerb(r))
+		switch p := r.Intn(100); {
+		case p < 45:
+			c.Lines = append(c.Lines, goodDoc(r))
+		case p < 80: // the document looks like an action line
+			c.Lines = append(c.Lines, mk(vhlib.Pick(r, []string{"index", "index", "create", "update", "delete"}), pickIdx(r, nIdx)))
+		case p < 88:
+			c.Lines = append(c.Lines, badDoc2(r))
+		case p < 94:
+			c.Lines = append(c.Lines, sized("doc_sized", maxRec+r.Intn(100)))
+		default:
+			c.Lines = append(c.Lines, unsafeVerb(r)) // and the document is another unsafe action line
+		}
+	}
+	if r.Chance(10) {
+		c.Lines = append(c.Lines, unsafeVerb(r)) // last line: no document follows
+		return c
+	}
+	c.Lines = append(c.Lines, closing(r, nIdx)...)
+	return c
+}
+
 // hand-written corner bodies, always run first
 func corner() []bodyCase {
 	ix, doc := mk("index", 1), mk("doc", 0)
@@ -663,6 +722,13 @@ func corner() []bodyCase {
 		{Stream: "regression/oversize", Lines: []lineSpec{ix, sized("doc_sized", maxRec+10), ix, mk("doc_truncated", 0), ix, doc}, FinalNL: true},
 		{Stream: "regression/oversize", Lines: []lineSpec{ix, sized("doc_sized", maxRec)}, FinalNL: true},
 		{Stream: "known/store_failure", Lines: []lineSpec{mk("index", 9), doc}, FinalNL: true, BadIndex: []int{9}},
+		{Stream: "unsafe_index", Lines: []lineSpec{mk("index", 25), doc, ix, doc, mk("create", 2), doc}, FinalNL: true},
+		{Stream: "unsafe_index", Lines: []lineSpec{ix, doc, mk("index", 23), mk("index", 2), ix, doc}, FinalNL: true},
+		{Stream: "unsafe_index", Lines: []lineSpec{mk("create", 20), mk("update", 1), mk("index", 2), doc}, FinalNL: false},
+		{Stream: "unsafe_index", Lines: []lineSpec{mk("index", 21), sized("doc_sized", maxRec), ix, doc}, FinalNL: true},
+		{Stream: "unsafe_index", Lines: []lineSpec{mk("index", 22), doc}, FinalNL: true},
+		{Stream: "unsafe_index", Lines: []lineSpec{mk("index", 24), mk("index", 26), doc, ix, doc}, FinalNL: true},
+		{Stream: "unsafe_index", Lines: []lineSpec{ix, doc, mk("index", 26)}, FinalNL: true},
 	}
 }
 
@@ -671,7 +737,7 @@ func corner() []bodyCase {
 func coqCase(c bodyCase, lens []int, o observation) string {
 	var ls []string
 	for i, l := range c.Lines {
-		ls = append(ls, fmt.Sprintf("L %d %s %d %s %d", lens[i], kindCoq[l.Act], l.Idx, vhlib.CoqBool(l.Parses), i))
+		ls = append(ls, fmt.Sprintf("L %d %s %d %s %s %d", lens[i], kindCoq[l.Act], l.Idx, vhlib.CoqBool(!unsafeIdx(l.Idx)), vhlib.CoqBool(l.Parses), i))
 	}
 	if c.FinalNL {
 		ls = append(ls, "empty_line")
@@ -750,10 +816,10 @@ func main() {
 	}
 
 	rng := vhlib.NewRng(cfg.Seed)
-	rMain, rT, rO, rS := rng.Fork(), rng.Fork(), rng.Fork(), rng.Fork()
-	nMain, nKnown := 230, 22
+	rMain, rT, rO, rS, rU := rng.Fork(), rng.Fork(), rng.Fork(), rng.Fork(), rng.Fork()
+	nMain, nKnown, nUnsafe := 230, 22, 70
 	if cfg.Thorough() {
-		nMain, nKnown = 3000, 150 // one process: flush+search get slower as the store grows (7200 bodies took 17 min)
+		nMain, nKnown, nUnsafe = 2600, 150, 500 // one process: flush+search get slower as the store grows (7200 bodies took 17 min)
 	}
 	cases := corner()
 	for i := 0; i < nMain; i++ {
@@ -761,6 +827,9 @@ func main() {
 	}
 	for i := 0; i < nKnown; i++ {
 		cases = append(cases, genTrailing(rT), genOversize(rO), genStoreFail(rS))
+	}
+	for i := 0; i < nUnsafe; i++ {
+		cases = append(cases, genUnsafe(rU))
 	}
 
 	known := map[string]bool{"bulk_store_failure_reported_created": true}
@@ -798,6 +867,11 @@ func main() {
 				sum.Count("action/write_ok")
 			case a.Over:
 				sum.Count("action/write_oversize")
+			case a.Kind == "write" && unsafeIdx(a.Idx):
+				sum.Count(fmt.Sprintf("action/write_unsafe_index_name:%q", indexNames[a.Idx]))
+				if a.HasDoc && c.Lines[a.DLine].Act <= kUpdate {
+					sum.Count("action/write_unsafe_index_name/document_looks_like_an_action")
+				}
 			case a.Kind == "write" && !a.HasDoc:
 				sum.Count("action/write_without_document")
 			case a.Kind == "write":
